@@ -134,7 +134,7 @@ PROFILE = {'weights': {'transfer': 6, 'container': 3, 'plate': 1, 'remove': 1, '
                        'dilute': 2, 'create_solution_from': 1},
            'q_modes': ['frac'] * 9 + ['over'], 'self_transfer': False, 'safe_margins': True, 'min_log_uL': 1.5,
            'fill_modes': ['fit'] * 7 + ['below', 'over'], 'dilute_modes': ['lower'] * 8 + ['higher'], 'max_dim': 2,
-           'solvent_containers': True}
+           'solvent_containers': True, 'solution_from_container_solvent': True}
 
 
 def gen_history(draw, pp, cfg):
@@ -226,7 +226,14 @@ def judge_history(col, world, reads, base, other, bw, ow, case):
     K = 4 * nops + 8
     for i, (a, b) in enumerate(zip(base['outcomes'], other['outcomes'])):
         ca, cb = a.split(':')[0], b.split(':')[0]
+        if {ca, cb} <= {'ValueError', 'LinAlgError'}:
+            continue                     # numpy's LinAlgError is a ValueError: both are the documented refusal
         if ca != cb:
+            if K * sum(c.grain for c in cfgs) / min_request(world.history[:i + 1]) > 0.02:
+                # some request so far is within a few dozen rounding grains of its own base unit (0.57 ng at 1e-10 g):
+                # the two configurations carried out visibly different requests, margins of 5 % do not cover that
+                col.exclude('a request of a few rounding grains: decisions legitimately differ')
+                return
             if near_boundary(world, world.history[i], cfgs, K):
                 col.exclude('decision differs within a few storage grains of the feasibility boundary')
                 return
@@ -340,7 +347,13 @@ def judge_program(col, prog, queries, base, other, bw, ow, case, ref, scales=Non
     for key in ('add_exc', 'bake_exc'):
         a = (base.get(key) or '').split(':')[0]
         b = (other.get(key) or '').split(':')[0]
+        if {a, b} <= {'ValueError', 'LinAlgError'}:
+            continue
         if a != b:
+            nst = len(programs.real_steps(prog))
+            if (4 * nst + 8) * (bw.cfg.grain + ow.cfg.grain) / min_request(programs.real_steps(prog)) > 0.02:
+                col.exclude('a request of a few rounding grains: decisions legitimately differ')
+                return
             col.report(f"config={tag}/recipe-decision-differs/{key}", {'baseline': base.get(key), 'other': other.get(key)}, case)
             return
     nsteps = len(programs.real_steps(prog))
